@@ -232,3 +232,296 @@ package transport
 //@     invariant 0 <= i && total == (i < len(b) ? i : len(b)) && len(b) == len(buf) && len(b) > MaxPlaintextSize
 //@     invariant bytesSent == old(bytesSent) + total
 //@     invariant c.ss.rawWrite.off >= 0 && c.ss.rawWrite.off <= len(c.ss.rawWrite.buf)
+
+// ===========================================================================
+// C10 (and the basis of C01 / C02 / C19): the post-quantum handshake messages
+// ===========================================================================
+//@ macro hsOK(hs) = cyclistOK(hs.duplex) && hs.dh != nil && hs.kem != nil
+
+//@ func (h hash.Hash) Write(p []byte) (n int, err error)
+//@   assume standard library (hash.Hash never fails)
+//@   modifies opaque(h)
+//@ func (h hash.Hash) Sum(b []byte) (out []byte)
+//@   assume standard library: SHA3-256 appends 32 bytes
+//@   modifies opaque(h)
+//@   ensures len(out) == len(b) + 32
+//@ func sha3.New256() (h hash.Hash)
+//@   assume standard library
+//@   pure
+//@   ensures h != nil
+
+//@ func CookieAD(ephemeral []byte, clientAddr *net.UDPAddr) (ad []byte)
+//@   property C10 C19
+//@   requires clientAddr != nil
+//@   modifies opaque(clientAddr)
+//@   ensures len(ad) == 32
+
+//@ func readVector(src []byte) (n int, v []byte, err error)
+//@   property C10 C02
+//@   pure
+//@   ensures err == nil ==> 0 <= n && n <= 65535 && 2 + n <= len(src) && len(v) == n && ref(v) == ref(src) && off(v) == off(src) + 2
+
+//@ func writeVector(dst []byte, src []byte) (n int, err error)
+//@   property C10 C02 C18
+//@   modifies dst[:]
+//@   ensures err == nil ==> n == 2 + len(src) && len(src) <= 65535 && n <= len(dst)
+
+//@ func EncryptedCertificatesLength(leaf []byte, intermediate []byte) (n int)
+//@   inline
+
+//@ func DecryptCertificates(duplex *cyclist.Cyclist, ciphertext []byte) (leaf []byte, intermediate []byte, err error)
+//@   property C10 C02
+//@   requires cyclistOK(duplex) && duplex.mode == cyclist.Key
+//@   modifies *duplex, duplex.gh_tr
+//@   ensures cyclistOK(duplex) && duplex.mode == cyclist.Key
+//@   ensures duplex.gh_tr == trDecrypt(old(duplex.gh_tr), old(bytes(ciphertext)))
+//@   ensures err == nil ==> len(leaf) + len(intermediate) + 4 == len(ciphertext)
+
+//@ func EncryptCertificates(duplex *cyclist.Cyclist, leaf []byte, intermediate []byte) (out []byte, err error)
+//@   property C10 C02
+//@   requires cyclistOK(duplex) && duplex.mode == cyclist.Key
+//@   modifies *duplex, duplex.gh_tr
+//@   ensures cyclistOK(duplex) && duplex.mode == cyclist.Key
+//@   ensures err == nil ==> len(out) == len(leaf) + len(intermediate) + 4
+
+//@ func (hs *HandshakeState) RekeyFromSqueeze(protocolName string)
+//@   property C10 C02
+//@   requires cyclistOK(hs.duplex) && len(protocolName) < 100
+//@   modifies hs.duplex, hs.duplex.gh_tr, hs.handshakeKey
+//@   ensures cyclistOK(hs.duplex) && hs.duplex.mode == cyclist.Key
+
+//@ func (hs *HandshakeState) writeCookie(b []byte, k []byte) (n int, err error)
+//@   property C10 C19
+//@   requires hs.kem != nil && hs.remoteAddr != nil && len(k) == 32
+//@   modifies b[:]
+//@   ensures err == nil ==> n == 64
+//@   ensures err != nil ==> n == 0
+
+//@ func (hs *HandshakeState) decryptCookie(b []byte) (n int, k *[]byte, err error)
+//@   property C10 C19
+//@   requires hs.kem != nil && hs.remoteAddr != nil
+//@   modifies opaque(hs)
+//@   ensures err == nil ==> n == 64 && k != nil && len(*k) == 32 && len(b) >= 64
+
+//@ func readPQClientHello(hs *HandshakeState, b []byte) (n int, err error)
+//@   property C10 C02
+//@   requires hsOK(hs)
+//@   modifies hs.duplex, hs.duplex.gh_tr, hs.macBuf, hs.kem.remoteEphemeral
+//@   ensures cyclistOK(hs.duplex) && hs.duplex.mode == old(hs.duplex.mode)
+//@   ensures err == nil ==> n == 820 && len(b) >= 820 && hs.kem.remoteEphemeral != nil
+
+//@ func (s *Server) handlePQClientHello(b []byte) (hs *HandshakeState, err error)
+//@   property C10 C19
+//@   ensures err == nil ==> hs != nil && hsOK(hs) && hs.duplex.mode == cyclist.Hash && hs.kem.remoteEphemeral != nil && len(b) == 820
+
+//@ func writePQServerHello(hs *HandshakeState, b []byte) (n int, err error)
+//@   property C10 C19
+//@   requires hsOK(hs) && hs.remoteAddr != nil && hs.kem.remoteEphemeral != nil
+//@   modifies hs.duplex, hs.duplex.gh_tr, b[:]
+//@   ensures err == nil ==> n == 852 && n <= len(b)
+
+//@ func (s *Server) ReplayPQDuplexFromCookie(cookie []byte, clientKemEphemeral keys.KEMPublicKey, clientAddr *net.UDPAddr) (hs *HandshakeState, err error)
+//@   property C10 C19 C02
+//@   requires clientAddr != nil && clientKemEphemeral != nil
+//@   ensures err == nil ==> hs != nil && hsOK(hs) && hs.duplex.mode == cyclist.Key && hs.remoteAddr == clientAddr
+
+//@ func (n *certs.Name) ReadFrom(r io.Reader) (k int64, err error)
+//@   assume name decoding (C11 / C18 cover it): changes only the name it fills
+//@   modifies *n
+
+//@ func bytes.NewBuffer(buf []byte) (b *bytes.Buffer)
+//@   assume standard library
+//@   pure
+//@   ensures b != nil
+
+//@ func (s *Server) readPQClientAck(b []byte, addr *net.UDPAddr) (n int, hs *HandshakeState, err error)
+//@   property C10 C19 C02
+//@   requires addr != nil
+//@   ensures err == nil ==> hs != nil && hsOK(hs) && hs.duplex.mode == cyclist.Key && n == 1172 && len(b) >= 1172 && hs.remoteAddr == addr
+
+// Configuration callbacks (application code): assumed to return usable certificates.
+//@ func transport.ServerConfig.GetCertificate(info ClientHandshakeInfo) (c *Certificate, err error)
+//@   assume application callback: on success a certificate with a key-agreement handle
+//@   pure
+//@   ensures err == nil ==> c != nil && c.Exchanger != nil
+//@ func transport.ServerConfig.GetCertList() (l []*Certificate, err error)
+//@   assume application callback: on success a list of non-nil certificates
+//@   pure
+//@   ensures err == nil ==> (forall i int :: 0 <= i && i < len(l) ==> l[i] != nil)
+
+//@ func (c *certs.Certificate) ReadFrom(r io.Reader) (k int64, err error)
+//@   assume certificate decoding (C11 / C18 cover it): changes only the certificate it fills
+//@   modifies *c
+
+//@ func (s *authkeys.SyncAuthKeySet) VerifyLeaf(leaf *certs.Certificate, opts certs.VerifyOptions) (err error)
+//@   assume membership in the key set (C05) plus certs.VerifyLeafFormat; changes nothing
+//@   pure
+//@ func transport.VerifyConfig.AddVerifyCallback(leaf *certs.Certificate) (err error)
+//@   assume application callback (the authgrant principal uses it to approve an intent, C06)
+//@   modifies opaque(leaf)
+
+//@ func (hs *HandshakeState) certificateParserAndVerifier(rawLeaf []byte, rawIntermediate []byte) (leaf certs.Certificate, intermediate certs.Certificate, err error)
+//@   property C10 C01
+//@   modifies opaque(hs)
+
+//@ func (s *Server) writePQServerAuth(b []byte, hs *HandshakeState) (n int, err error)
+//@   property C10
+//@   requires hsOK(hs) && hs.duplex.mode == cyclist.Key
+//@   modifies hs.duplex, hs.duplex.gh_tr, b[:]
+//@   ensures err == nil ==> 0 <= n && n <= len(b) && cyclistOK(hs.duplex) && hs.duplex.mode == cyclist.Key
+
+//@ func (s *Server) fetchHandshakeState(remoteAddr *net.UDPAddr) (hs *HandshakeState)
+//@   assume handshake table lookup (net.UDPAddr.String as key); entries were stored by setHandshakeState after readPQClientAck / handlePQClientRequestHidden, so they satisfy hsOK and are keyed
+//@   pure
+//@   nilable
+//@   ensures hs != nil ==> hsOK(hs) && hs.duplex.mode == cyclist.Key
+
+//@ func (s *Server) readPQClientAuth(b []byte, addr *net.UDPAddr) (n int, hs *HandshakeState, err error)
+//@   property C10 C01
+//@   ensures err == nil ==> hs != nil && hsOK(hs) && hs.duplex.mode == cyclist.Key
+
+//@ func (s *Server) readPQClientRequestHidden(hs *HandshakeState, b []byte) (n int, err error)
+//@   property C10 C19
+//@   requires len(b) >= 4 && hs.dh != nil && hs.kem != nil
+//@   ensures err == nil ==> hsOK(hs) && hs.duplex.mode == cyclist.Key && hs.kem.remoteEphemeral != nil && n <= len(b)
+//@   loop 1
+//@     invariant c == nil && len(scratch) == len(b) && hs.dh != nil && hs.kem != nil && hs.dh == old(hs.dh) && hs.kem == old(hs.kem)
+//@     invariant len(b) >= 4 + 768 + encCertsLen + 16 + 800 + 8 + 16 && encCertsLen >= 0 && encCertsLen <= 65535
+
+//@ func (s *Server) handlePQClientRequestHidden(b []byte) (n int, hs *HandshakeState, err error)
+//@   property C10 C19
+//@   requires len(b) >= 4
+//@   ensures err == nil ==> hs != nil && hsOK(hs) && hs.duplex.mode == cyclist.Key && hs.kem.remoteEphemeral != nil && n == len(b)
+
+//@ func (s *Server) writePQServerResponseHidden(hs *HandshakeState, b []byte) (n int, err error)
+//@   property C10
+//@   requires hsOK(hs) && hs.duplex.mode == cyclist.Key && hs.kem.remoteEphemeral != nil
+//@   modifies hs.duplex, hs.duplex.gh_tr, b[:]
+//@   ensures 0 <= n && n <= len(b)
+//@   ensures err == nil ==> cyclistOK(hs.duplex) && hs.duplex.mode == cyclist.Key
+
+//@ func rand.Read(b []byte) (n int, err error)
+//@   assume crypto/rand never fails (documented since Go 1.24) and fills the whole slice
+//@   modifies b[:]
+//@   ensures n == len(b) && err == nil
+
+//@ func (addr *net.UDPAddr) String() (s string)
+//@   assume standard library
+//@   pure
+
+//@ func time.AfterFunc(d time.Duration, f func()) (t *time.Timer)
+//@   assume standard library: f runs later on its own goroutine (not part of this frame)
+//@   pure
+
+//@ func (hs *HandshakeState) deriveFinalKeys(clientToServerKey *[16]byte, serverToClientKey *[16]byte) (err error)
+//@   property C10 C02
+//@   requires cyclistOK(hs.duplex) && hs.duplex.mode == cyclist.Key
+//@   modifies hs.duplex, hs.duplex.gh_tr, *clientToServerKey, *serverToClientKey
+//@   ensures err == nil
+
+//@ func newHandleForSession(underlying UDPLike, ss *SessionState, leaf *certs.Certificate, packetBufLen int) (h *Handle)
+//@   assume constructor (allocates the receive queue; C17 covers the queue)
+//@   pure
+//@   ensures h != nil
+
+// Session creation draws random 4-byte ids until one is free; the two panics in it
+// (random source failure, 100 collisions in a row) are outside what a datagram can cause
+// short of a session table of about 2^32 entries - assumed unreachable (listed).
+//@ func (s *Server) createSessionFromHandshakeLocked(hs *HandshakeState) (ss *SessionState)
+//@   assume see comment: the 100-collisions panic is a probabilistic event, not an input-driven one
+//@   modifies hs.sessionID, mapof(s.sessions)
+//@   ensures ss != nil
+
+// The server's tables exist from init on (Server.init allocates them; NewServer is the only constructor).
+//@ objinv Server : self.handshakes != nil && self.sessions != nil
+
+//@ func (s *Server) setHandshakeState(remoteAddr *net.UDPAddr, hs *HandshakeState) (ok bool)
+//@   property C10 C19
+//@   atomic
+//@   requires remoteAddr != nil
+//@   modifies mapof(s.handshakes), mapof(s.sessions), hs.remoteAddr, hs.sessionID
+
+//@ func (s *Server) finishHandshake(hs *HandshakeState, isHidden bool) (err error)
+//@   property C10 C01
+//@   atomic
+//@   requires hsOK(hs) && hs.duplex.mode == cyclist.Key
+
+//@ func (s *Server) writePacket(pkt []byte, dst *net.UDPAddr) (err error)
+//@   property C10 C19
+//@   modifies opaque(s)
+
+// readPacket: one datagram of ANY content and length, against any server state and
+// configuration: no panic, and every callee's precondition is established.
+//@ func (s *Server) readPacket(rawRead []byte, handshakeWriteBuf []byte) (err error)
+//@   property C10 C19 C01
+//@   requires len(rawRead) >= 65535 && len(handshakeWriteBuf) >= 65535
+
+//@ func (u UDPLike) ReadMsgUDP(b []byte, oob []byte) (n int, oobn int, flags int, addr *net.UDPAddr, err error)
+//@   assume the socket: returns at most len(b) bytes and, on success, the sender's address
+//@   modifies b[:]
+//@   ensures err == nil ==> 0 <= n && n <= len(b) && addr != nil
+
+// ---- client side ----------------------------------------------------------
+//@ func writePQClientHello(hs *HandshakeState, b []byte) (n int, err error)
+//@   property C10 C02
+//@   requires hsOK(hs) && hs.kem.ephemeral.Public != nil
+//@   modifies hs.duplex, hs.duplex.gh_tr, b[:]
+//@   ensures cyclistOK(hs.duplex) && hs.duplex.mode == old(hs.duplex.mode) && 0 <= n && n <= len(b)
+
+//@ func readPQServerHello(hs *HandshakeState, b []byte) (n int, err error)
+//@   property C10 C02
+//@   requires hsOK(hs)
+//@   modifies hs.duplex, hs.duplex.gh_tr, hs.macBuf, hs.cookie
+//@   ensures cyclistOK(hs.duplex) && hs.duplex.mode == old(hs.duplex.mode)
+//@   ensures err == nil ==> n == 852 && len(b) >= 852 && len(hs.cookie) == 64
+
+//@ func (n certs.Name) WriteTo(w io.Writer) (k int64, err error)
+//@   assume name encoding (C18 covers it); writes only to w
+//@   modifies opaque(w)
+
+//@ func (hs *HandshakeState) EncryptSNI(dst []byte, name certs.Name) (err error)
+//@   property C10 C02
+//@   requires cyclistOK(hs.duplex) && hs.duplex.mode == cyclist.Key && len(dst) >= 256
+//@   modifies hs.duplex, hs.duplex.gh_tr, dst[:]
+//@   ensures cyclistOK(hs.duplex) && hs.duplex.mode == cyclist.Key
+
+//@ func (hs *HandshakeState) writePQClientAck(b []byte) (n int, err error)
+//@   property C10 C02
+//@   requires hsOK(hs) && hs.duplex.mode == cyclist.Key && hs.kem.ephemeral.Public != nil && hs.certVerify != nil
+//@   modifies hs.duplex, hs.duplex.gh_tr, b[:]
+//@   ensures cyclistOK(hs.duplex) && hs.duplex.mode == cyclist.Key && 0 <= n && n <= len(b)
+
+//@ func (hs *HandshakeState) readPQServerAuth(b []byte) (n int, err error)
+//@   property C10 C01 C02
+//@   requires hsOK(hs) && hs.duplex.mode == cyclist.Key
+//@   modifies hs.duplex, hs.duplex.gh_tr, hs.sessionID, hs.macBuf, hs.dh.remoteEphemeral, opaque(hs)
+//@   ensures err == nil ==> cyclistOK(hs.duplex) && hs.duplex.mode == cyclist.Key && n <= len(b)
+
+//@ func (hs *HandshakeState) writePQClientAuth(b []byte) (n int, err error)
+//@   property C10 C02
+//@   requires hsOK(hs) && hs.duplex.mode == cyclist.Key && hs.dh.static != nil
+//@   modifies hs.duplex, hs.duplex.gh_tr, b[:]
+//@   ensures 0 <= n && n <= len(b)
+
+//@ func (hs *HandshakeState) writePQClientRequestHidden(b []byte, serverKEMPublicKey *keys.KEMPublicKey) (n int, err error)
+//@   property C10 C02
+//@   requires hsOK(hs) && hs.duplex.mode == cyclist.Key && hs.kem.ephemeral.Public != nil
+//@   modifies hs.duplex, hs.duplex.gh_tr, b[:]
+//@   ensures cyclistOK(hs.duplex) && hs.duplex.mode == cyclist.Key && 0 <= n && n <= len(b)
+
+//@ func (hs *HandshakeState) readPQServerResponseHidden(b []byte) (n int, err error)
+//@   property C10 C01 C02
+//@   requires hsOK(hs) && hs.duplex.mode == cyclist.Key && hs.dh.static != nil
+//@   ensures err == nil ==> n <= len(b)
+
+//@ func (c *Client) setHSDeadline()
+//@   assume deadline bookkeeping (C17)
+//@   modifies opaque(c)
+
+//@ func (c *Client) beginPQDiscoverableHandshake(buf []byte) (err error)
+//@   property C10
+//@   requires c.hs != nil && hsOK(c.hs) && c.hs.duplex.mode == cyclist.Hash && c.hs.kem.ephemeral.Public != nil && c.hs.certVerify != nil && c.hs.dh.static != nil && len(buf) >= 65535
+
+//@ func (c *Client) beginPQHiddenHandshake(buf []byte) (err error)
+//@   property C10
+//@   requires c.hs != nil && hsOK(c.hs) && c.hs.duplex.mode == cyclist.Hash && c.hs.kem.ephemeral.Public != nil && c.hs.dh.static != nil && len(buf) >= 65535
